@@ -318,6 +318,19 @@ def Proj.keyString (p : Proj) (k : Nat) : Bytes :=
   | [] => []
   | x :: xs => xs.foldl (fun acc y => acc ++ [space] ++ y) x
 
+/-- `Key.StringValues` (`Key.string(false)`): the non-empty values in flattened order, separated by
+blanks. -/
+def Proj.keyStringValues (p : Proj) (k : Nat) : Bytes :=
+  let vals := p.vals k
+  let pieces := p.flat.filterMap fun f =>
+    if f.idx ≥ vals.length then none
+    else
+      let v := getVal vals f.idx
+      if v.isEmpty then none else some v
+  match pieces with
+  | [] => []
+  | x :: xs => xs.foldl (fun acc y => acc ++ [space] ++ y) x
+
 /-- `Key.Less` -/
 def Proj.less (pn : Bytes → NumC) (p : Proj) (a b : Nat) : Bool :=
   Sort.less pn p.flat (p.vals a) (p.vals b)
